@@ -15,8 +15,10 @@ package props
 // the owner's balance grows by exactly that value.
 
 import (
+	"flag"
 	"fmt"
 	"math/big"
+	"strconv"
 	"testing"
 
 	tx "github.com/MinterTeam/minter-go-node/coreV2/transaction"
@@ -26,12 +28,33 @@ import (
 )
 
 func TestC16MoveTargetRemoved(t *testing.T) {
+	defer checksDividedBy(4)()
 	rapid.Check(t, func(t *rapid.T) { c16MoveTargetRemoved(t, "TestC16MoveTargetRemoved") })
 }
 
 // TestC07MoveTargetRemoved runs the same scenario for C07 (no begin-block may panic).
 func TestC07MoveTargetRemoved(t *testing.T) {
+	defer checksDividedBy(16)()
 	rapid.Check(t, func(t *rapid.T) { c16MoveTargetRemoved(t, "TestC07MoveTargetRemoved") })
+}
+
+// checksDividedBy lowers the number of cases of one test below the tier's number (a case of this
+// scenario executes more than 500 blocks of a 100-candidate world); the returned function restores it.
+func checksDividedBy(d int) func() {
+	f := flag.Lookup("rapid.checks")
+	if f == nil {
+		return func() {}
+	}
+	old := f.Value.String()
+	n, err := strconv.Atoi(old)
+	if err != nil || n <= 0 {
+		return func() {}
+	}
+	if n = n / d; n < 6 {
+		n = 6
+	}
+	_ = flag.Set("rapid.checks", strconv.Itoa(n))
+	return func() { _ = flag.Set("rapid.checks", old) }
 }
 
 func c16MoveTargetRemoved(t *rapid.T, test string) {
